@@ -77,6 +77,14 @@ def main():
                 n = sys.maxsize // 2 if cap == "unbounded" else cap
                 wrapped = LRUCacheStore(store, num_elem=n)
             outs, lens = [], []
+            if s.get("clients"):
+                # several cache wrappers (processes) over ONE inner store; ops are [client, op]
+                ws = [LRUCacheStore(store, num_elem=(sys.maxsize // 2 if cap == "unbounded" else cap)) for _ in range(s["clients"])]
+                for ci, op in s["ops"]:
+                    outs.append(do(ws[ci], op))
+                    lens.append(max(len(w._cache._cache) for w in ws))
+                res.append({"outs": outs, "lens": lens})
+                continue
             for op in s["ops"]:
                 if op[0] == "reopen":
                     # a new store object on the same directories / the same remote file system
